@@ -84,6 +84,8 @@ func poolTimes() []interface{} {
 		time.Date(1, 1, 1, 0, 0, 0, 0, time.UTC),
 		time.Date(9999, 12, 31, 23, 59, 59, 999999999, time.UTC),
 		time.Date(2500, 6, 1, 0, 0, 0, 0, zoneP2),
+		time.Unix(1700000000, 7).In(time.FixedZone("", 19*60+32)), // a zone offset that is not a whole number of minutes
+		time.Unix(1600000000, 0).In(time.FixedZone("LMT", 3*3600+7*60+5)),
 	}
 	out := make([]interface{}, 0, len(xs))
 	for _, x := range xs {
